@@ -705,6 +705,7 @@ def kernel_value_table(ctx, clause: str, what: str):
                                 if costs[0] > 1000 and (bf or norm):
                                     continue
                                 excl = prefix == "without the full prefix"
+                                warn = costs == (Fr(1), Fr(2), Fr(3)) and not bf and not prefix  # (with the diagnostics on: the same values)
                                 holder = {}
 
                                 def leaf(x, env):
@@ -727,7 +728,7 @@ def kernel_value_table(ctx, clause: str, what: str):
                                         env[a_.arg] = d_.value
                                 ref, hyp = frac_array(refs).T, frac_array(hyps).T  # (R, N), (H, N)
                                 env.update(ref=ref.T if bf else ref, hyp=hyp.T if bf else hyp, eos=eos, include_eos=inc, batch_first=bf,
-                                           ins_cost=costs[0], del_cost=costs[1], sub_cost=costs[2], warn=False, norm=norm, padding=PAD,
+                                           ins_cost=costs[0], del_cost=costs[1], sub_cost=costs[2], warn=warn, norm=norm, padding=PAD,
                                            return_prf_dsts=bool(prefix), return_mistakes=(what == "count"), return_mask=False, exclude_last=excl)
                                 kind, got = it.run(f.node, env)
                                 n_rows += 1
